@@ -23,6 +23,7 @@ BUILD = os.environ.get("VERIF_BUILD", os.path.join(VERIF, "build"))
 # where replays and evidence are written (the sensitivity tool redirects them to a scratch dir)
 OUT = os.environ.get("VERIF_OUT", VERIF)
 REPLAY_TIMEOUT = 60
+DET_RUNS = 400  # runs re-executed in a second process layout for the per-check determinism gate
 
 SAN_ENV = {
     "ASAN_OPTIONS": "exitcode=77:detect_leaks=0:abort_on_error=0:allocator_may_return_null=1:"
@@ -241,6 +242,7 @@ def run_workers(exe, engine, tier, seed, tmpdir):
     ee = engine.get("enum_every", {}).get(tier, 0)
     if ee:
         base += ["--enum-every", str(ee)]
+    base += ["--hashes-below", str(DET_RUNS)]
     procs = []
     for w in range(nworkers):
         out = open(os.path.join(tmpdir, "w%d.out" % w), "w")
@@ -259,6 +261,23 @@ def run_workers(exe, engine, tier, seed, tmpdir):
         with open(os.path.join(tmpdir, "w%d.out" % w), errors="replace") as f:
             results.append((w, p.returncode, f.read()))
     return results, nworkers
+
+
+def determinism_gate(exe, engine, tier, seed, worker_texts):
+    """Re-executes the first DET_RUNS runs in ONE process and compares their event-log hashes with
+    the ones the 16 workers produced (run i's seed depends only on (VERIF_SEED, property, i))."""
+    first = {}
+    for text in worker_texts:
+        for m in re.finditer(r"^H (\d+) (\w+)$", text, re.M):
+            first[int(m.group(1))] = m.group(2)
+    cmd = [exe, "--seed", str(seed), "--runs", str(DET_RUNS), "--budget", "120", "--hashes-below", str(DET_RUNS),
+           "--worker", "0", "1"] + (["--thorough"] if tier == "thorough" else [])
+    r = subprocess.run(cmd, stdout=subprocess.PIPE, stderr=subprocess.STDOUT, text=True, env=env(), errors="replace")
+    second = {int(m.group(1)): m.group(2) for m in re.finditer(r"^H (\d+) (\w+)$", r.stdout, re.M)}
+    common = sorted(set(first) & set(second))
+    bad = [i for i in common if first[i] != second[i]]
+    return {"runs_compared": len(common), "mismatches": len(bad), "first_mismatch": bad[:3],
+            "layouts": "16 worker processes vs 1 process"}
 
 
 def parse_worker(text):
@@ -447,6 +466,11 @@ def run(pid, P, t0, tmpdir):
             sample_mod = stats["distinct_sample_mod"]
             distinct.update((e["id"], h) for h in stats["distinct_hashes"])
         est["wall_s"] = round(time.time() - te, 2)
+        if not any(c["engine"] is e for c in all_cands):
+            est["determinism_gate"] = determinism_gate(exe, e, tier, seed, [t for _, _, t in results])
+            if est["determinism_gate"]["mismatches"]:
+                log("INFRA determinism gate failed for %s: %s" % (e["id"], est["determinism_gate"]))
+                return 2
         agg["engines"][e["id"]] = est
 
     # 3. violation pipeline: gate, minimise, replay file
